@@ -22,7 +22,7 @@ require (
 	github.com/joeqian10/neo-gogogo v1.1.0
 	github.com/joeqian10/neo3-gogogo v0.3.8
 	github.com/joeqian10/neo3-gogogo-legacy v1.0.0
-	github.com/matthewhartstonge/argon2 v0.2.1 // indirect
+	github.com/matthewhartstonge/argon2 v0.2.1
 	github.com/novifinancial/serde-reflection/serde-generate/runtime/golang v0.0.0-20210526181959-1694c58d103e
 	github.com/ontio/ontology v1.11.1-0.20200812075204-26cf1fa5dd47
 	github.com/ontio/ontology-crypto v1.0.9
